@@ -224,6 +224,8 @@ def base_effect(run, P):
             return [('', a0, [])]
         if base == 'new_unchecked' and isinstance(a0, tuple) and a0[0] == 'bytes':
             return [('', a0, [])]
+        if base == 'new_unchecked' and isinstance(a0, tuple) and a0[0] == 'prefix' and a0[1] == 'T':
+            return [('', ('bytes', 'T[..e]', a0[2], ('T', Aff(), a0[2])), [])]
         if name == 'common::path::PathImpl::directory' and isinstance(a0, tuple) and a0[0] == 'bytes' and len(a0) > 3 and a0[3]:
             state['path'] = a0[3]
             d = sym('len(D)')
